@@ -54,7 +54,7 @@ Calls ==
 \cup {C("BLSThresholdKeyGen", n, t, s, OkIf(ValidInt(n) /\ ValidInt(t) /\ s = "32")) : n \in Ints, t \in Ints, s \in {"nil", "31", "32"}}
 \cup {C("EnoughShares", t, n, "-", IF t \in {"min", "neg", "lo-1"} THEN "reject" ELSE "any") : t \in Ints, n \in Ints}
 \cup {C("BLSReconstructThresholdSignature", cnt, sh, sg, "any-or-reject") :
-        cnt \in {"none", "t", "t+1", "t+2"}, sh \in Bytes, sg \in {"ok", "dup", "neg", "n", "fewer", "nil"}}
+        cnt \in {"none", "t", "t+1", "t+2", "t+3", "2t+2", "n"}, sh \in Bytes, sg \in {"ok", "dup", "neg", "n", "fewer", "nil"}}
 \cup {C("NewBLSThresholdSignatureInspector", t, l, "-", OkIf(ValidInt(t) /\ l \in {"two", "many"})) : t \in Ints, l \in Lists}
 \cup {C("InspectorOp", op, i, b, "any-or-reject") :
         op \in {"TrustedAdd", "VerifyAndAdd", "VerifyShare", "HasShare", "ThresholdSignatureAfterAdds", "VerifyThresholdSignature"}, i \in Ints, b \in Bytes}
